@@ -1963,6 +1963,28 @@ def run_elements(ctx, n) -> None:
     # nesting 0..20, alternating sequence / alternative
     deep = st.tuples(de_leaf(), st.integers(0, 20), st.sampled_from([('seq',), ('alt',), ('seq', 'alt')])).map(lambda t: nest(t[0], t[1], t[2]))
     ctx.hyp('sdp_elem/deep', one, deep, max_examples=max(21, n // 2))
+    # wide shapes: many children, among them many (empty) containers, followed by a nested container - any state the
+    # parser keeps per container (depth accounting) must be balanced over siblings, not only along one chain
+    def wide_tree(t):
+        k, empties, kinds, leaf, depth, bushy = t
+        children = []
+        for i in range(k):
+            children.append([kinds[i % len(kinds)], []] if i < empties else ([kinds[i % len(kinds)], [leaf]] if i % 3 == 0 else leaf))
+        tail = leaf
+        for i in range(depth):  # a chain in which every level has siblings in front of the nested container
+            tail = [kinds[i % len(kinds)], ([['nil'], leaf] if bushy else []) + [tail]]
+        return ['seq', children + [tail]]
+
+    wide = st.tuples(st.integers(0, 70), st.integers(0, 70), st.sampled_from([('seq',), ('alt',), ('seq', 'alt')]), de_leaf(),
+                     st.integers(0, 20), st.booleans()).map(lambda t: wide_tree((t[0], min(t[0], t[1]), t[2], t[3], t[4], t[5])))
+
+    def one_wide(tree):
+        one(tree)
+        ctx.label('sdp_wide')
+        if sum(1 for c in tree[1] if c[0] in ('seq', 'alt') and not c[1]) >= 31:
+            ctx.label('sdp_wide:31+empty_containers')
+
+    ctx.hyp('sdp_elem/wide', one_wide, wide, max_examples=max(30, n // 3))
     # size boundaries: plain python loop (exhaustive over the named sizes x variable-length types)
     cases = []
     for size in SDP_BOUNDARY_SIZES + (2, 254, 257, 65534, 65537):
@@ -3019,7 +3041,7 @@ def run(ctx) -> None:
             raise HarnessError(f'registry {name}: {covered[name]} of {registered[name]} registered classes covered')
     ctx.notes.append('avrcp.RejectedResponse / NotImplementedResponse are not in Response.subclasses (no class-level pdu_id) and are not reached by any parse entry point')
 
-    floors = ['golden', 'ertm_i', 'ertm_s', 'ertm_s_poll', 'ertm_final', 'psm_len2', 'psm_len3', 'psm_len4', 'sdp_nonminimal_size',
+    floors = ['sdp_wide', 'sdp_wide:31+empty_containers', 'golden', 'ertm_i', 'ertm_s', 'ertm_s_poll', 'ertm_final', 'psm_len2', 'psm_len3', 'psm_len4', 'sdp_nonminimal_size',
               'rfcomm_type:2f', 'rfcomm_type:63', 'rfcomm_type:0f', 'rfcomm_type:43', 'mcc_pn', 'mcc_msc', 'mcc_envelope',
               'codec:sbc', 'codec:aac', 'codec:vendor', 'codec:opus', 'caps_generic', 'avctp', 'rtp_padding', 'rtp_extension', 'rtp_marker',
               'ad_total<=31', 'ad_total<=1650', 'ad_typed', 'uuid:2', 'uuid:4', 'uuid:16', 'uuid_base_expansion', 'uuid_history',
